@@ -1,5 +1,5 @@
 PROP = {
-    "coq": ["C15"],
+    "coq": ["C15", "C15b"],
     "exhaustive": False,
     "rule": "extractRole on synthetic x509.Certificate values (only Extensions populated) through VerifExtractRole: "
             "all 256 identifier octets x 13 length/content forms (+ as first/second of two role extensions); "
@@ -10,11 +10,17 @@ PROP = {
             "truncated, trailing bytes, all 256 second octets, lengths that do not fit (84 7f ff ff ff, 85.., 88.., ff); "
             "every sequence of 0..4 extensions over 10 kinds (good/bad role values, 6 near-miss OIDs, unrelated OIDs); "
             "random role strings up to 300 bytes with random mutations and neighbours; plain TCP sessions through the real server path."
-            " Scenario tlschainrole (real TLS handshakes): clients present leaf + issuer where the issuer (intermediate or root) carries a well-formed role and the leaf carries none / a malformed one in eight ways; the role must be the leaf's.",
+            " Scenario tlschainrole (real TLS handshakes): clients present leaf + issuer where the issuer (intermediate or root) carries a well-formed role and the leaf carries none / a malformed one in eight ways; the role must be the leaf's."
+            " Scenario tlsroleseq (real TLS handshakes, Model/RoleSeq.v tls_serve_sessions): ONE running tcp+tls server and an ordered "
+            "sequence of 3..6 sessions (closed one after the other, or kept open) whose client certificates come from a family sharing "
+            "the key pair / key pair and subject / subject and serial number / everything but the role extension / nothing, with the "
+            "role extension varying from session to session (UTF8String r1, r2, absent, duplicated, other string types, malformed "
+            "lengths, trailing bytes, invalid UTF-8, near-miss OIDs; 7 fixed orders + random ones per family, some sessions refused "
+            "at TLS 1.1): every handler invocation must carry the role stated by the leaf of ITS session, whatever came before.",
     "assumptions": [
         "lengths are below 2^31 (Go's encoding/asn1 refuses larger ones; a TLS handshake message cannot carry one)",
         "extension values are octet strings (each element below 256)",
-        "TLS sessions hand extractRole(PeerCertificates[0]) to the handlers unchanged (server.go startTLS/handleTCPClient, read; exercised by the C14 handshake matrix)",
+        "TLS sessions hand extractRole(PeerCertificates[0]) to the handlers unchanged (server.go startTLS/handleTCPClient, read; exercised by the C14 handshake matrix and, for sequences of sessions on one server, by scenario tlsroleseq)",
     ],
     "trusted": [
         "Go's encoding/asn1 (Unmarshal into a string, parseTagAndLength) and unicode/utf8.Valid are MODELLED for this call path (Model/Der.v, Model/Utf8.v) and tied to the real packages by the correspondence run only",
